@@ -71,11 +71,20 @@ Proof.
   rewrite (pci_walk_first n pre d post _ Hp Hd). reflexivity.
 Qed.
 
-Theorem HFSTS_no_device : forall n l ee, 1 <= n <= 6 -> no_me l ->
-  read_hfsts n l ee = if ee then HErr else HWord 0.
+(** no ME-numbered device: an error, for every register and with or without enumeration error
+    (former finding C05-HFSTS-no-ME-device) *)
+Theorem HFSTS_no_device : forall n l ee, no_me l -> read_hfsts n l ee = HErr.
 Proof.
-  intros n l ee Hn Hl. unfold read_hfsts. rewrite (reg_ok n Hn), (pci_walk_no_me n l _ Hl).
-  destruct ee; reflexivity.
+  intros n l ee Hl. unfold read_hfsts. destruct ((n <? 1) || (6 <? n)); [reflexivity|].
+  rewrite (pci_walk_no_me n l _ Hl). destruct ee; reflexivity.
+Qed.
+
+(** the reader before the repair handed out the zero-initialised buffer *)
+Theorem HFSTS_no_device_legacy : forall n l, 1 <= n <= 6 -> no_me l ->
+  read_hfsts_legacy n l false = HWord 0.
+Proof.
+  intros n l Hn Hl. unfold read_hfsts_legacy. rewrite (reg_ok n Hn), (pci_walk_no_me n l _ Hl).
+  reflexivity.
 Qed.
 
 Theorem HFSTS_bad_register : forall n l ee, ~ (1 <= n <= 6) -> read_hfsts n l ee = HErr.
@@ -90,18 +99,16 @@ Theorem HFSTS_other_devices_irrelevant : forall n l ee,
 Proof. intros n l ee. unfold read_hfsts. rewrite <- pci_walk_filter. reflexivity. Qed.
 
 (** the status never comes from a device that is not the first ME-numbered one: a delivered
-    word is the register of that device, or the made-up 0 of a platform without such a device *)
+    word is the register of that device *)
 Theorem HFSTS_word_origin : forall n l ee w, read_hfsts n l ee = HWord w ->
-  (exists pre d post, l = pre ++ d :: post /\ no_me pre /\ is_me d = true /\ hfsts_word n d = Some w) \/
-  (no_me l /\ ee = false /\ w = 0).
+  exists pre d post, l = pre ++ d :: post /\ no_me pre /\ is_me d = true /\ hfsts_word n d = Some w.
 Proof.
   intros n l ee w H.
   destruct (Z_le_dec 1 n) as [H1|H1]; [destruct (Z_le_dec n 6) as [H6|H6]|];
     try (rewrite HFSTS_bad_register in H by lia; discriminate).
   destruct (split_first_me l) as [Hl|(pre & d & post & -> & Hp & Hd)].
-  - right. rewrite HFSTS_no_device in H by (try lia; exact Hl). destruct ee; [discriminate|].
-    injection H as <-. repeat split. exact Hl.
-  - left. rewrite HFSTS_first_match in H by (try lia; assumption). unfold read_dev in H.
+  - rewrite HFSTS_no_device in H by exact Hl. discriminate.
+  - rewrite HFSTS_first_match in H by (try lia; assumption). unfold read_dev in H.
     destruct (hfsts_word n d) as [w'|] eqn:E; [|discriminate]. injection H as <-.
     exists pre, d, post. repeat split; assumption.
 Qed.
@@ -129,22 +136,17 @@ Qed.
 Lemma sane_me_raw_zero strict v msr : sane_me_raw strict v 0 msr = bad.
 Proof. destruct strict; reflexivity. Qed.
 
-(** no ME-numbered device: the provisioning verdict is negative (the made-up status has FPF
-    lock = 0) ... *)
+(** no ME-numbered device: no status, no success *)
 Theorem SaneME_platform_no_device : forall strict v l ee msr, no_me l ->
   sane_me_plat strict v l ee msr = bad.
 Proof.
-  intros. unfold sane_me_plat. rewrite HFSTS_no_device by (try lia; assumption).
-  destruct ee; [reflexivity|apply sane_me_raw_zero].
+  intros. unfold sane_me_plat. rewrite HFSTS_no_device by assumption. reflexivity.
 Qed.
 
-(** ... the manifest comparison is run against the made-up all-zero status *)
 Theorem ValidateME_platform_no_device : forall v l ee b k i, no_me l ->
-  validate_me_plat v l ee b k i =
-  if ee then bad else validate_me v (decode_hfsts6 0) b k i.
+  validate_me_plat v l ee b k i = bad.
 Proof.
-  intros. unfold validate_me_plat. rewrite HFSTS_no_device by (try lia; assumption).
-  destruct ee; reflexivity.
+  intros. unfold validate_me_plat. rewrite HFSTS_no_device by assumption. reflexivity.
 Qed.
 
 (** fail closed on every platform: a success of (Strict)SaneMEBootGuardProvisioning fed from
@@ -184,32 +186,49 @@ Proof.
   - apply (proj1 (SaneME_exact _ _ _)). exact Hn.
 Qed.
 
-(** ValidateMEAgainstManifests fed from GetHFSTS6.  PARTIAL: needs a platform that has an
-    ME-numbered device at all (without one see [HFSTS_no_device_failclosed_refuted]). *)
-Theorem ValidateME_platform_sound_partial : forall v l ee b k i,
-  (exists x, In x l /\ is_me x = true) ->
+(** ValidateMEAgainstManifests fed from GetHFSTS6: a success is a success of the comparison with
+    the HFSTS6 of the first ME-numbered device, on every platform *)
+Theorem ValidateME_platform_sound : forall v l ee b k i,
   validate_me_plat v l ee b k i = good ->
   exists pre d post w, l = pre ++ d :: post /\ no_me pre /\ is_me d = true /\
     hfsts_word 6 d = Some w /\ validate_me v (decode_hfsts6 w) b k i = good.
 Proof.
-  intros v l ee b k i (x & Hx & Ex) H.
+  intros v l ee b k i H.
   destruct (split_first_me l) as [Hl|(pre & d & post & -> & Hp & Hd)].
-  - exfalso. exact (has_me_not_no_me l x Hx Ex Hl).
+  - rewrite ValidateME_platform_no_device in H by exact Hl. discriminate.
   - rewrite ValidateME_platform_first in H by assumption. unfold from_dev in H.
     destruct (hfsts_word 6 d) as [w|] eqn:E; [|discriminate].
     exists pre, d, post, w. repeat split; assumption.
 Qed.
 
-(** finding C05-HFSTS-no-ME-device: a platform without ME device gets a status and no error,
-    and manifests with SVNs / key manifest id 0 are reported to agree with "the ME" *)
+(** former finding C05-HFSTS-no-ME-device (repaired by f889c7f): a platform without ME device
+    gets no status from either reader, hence no success from any verdict or pkg/test entry
+    point fed from it - for every platform, register, version, manifest value *)
+Theorem HFSTS_no_device_failclosed : forall l ee, no_me l ->
+  (forall n, read_hfsts n l ee = HErr) /\
+  get_hfsts1 l ee = None /\ get_hfsts6 l ee = None /\
+  (forall strict v msr, sane_me_plat strict v l ee msr = bad /\ test_sane_me_plat strict v l ee msr = fail) /\
+  (forall v b k i, validate_me_plat v l ee b k i = bad /\ test_validate_me_plat v l ee b k i = fail).
+Proof.
+  intros l ee Hl.
+  assert (R : forall n, read_hfsts n l ee = HErr) by (intros n; apply HFSTS_no_device; exact Hl).
+  split; [exact R|]. unfold get_hfsts1, get_hfsts6, sane_me_plat, test_sane_me_plat,
+    validate_me_plat, test_validate_me_plat, test_wrap. rewrite !R. repeat split.
+Qed.
+
+(** the former witness: host bridge and LPC bridge only; the reader before the repair made up
+    an all-zero status, with which manifests with SVNs / key manifest id 0 agree *)
 Definition plat_no_me : list pcidev :=
   [mkdev 0 0 0 (Some [0; 0; 0; 0; 0; 0]); mkdev 0 31 0 (Some [0; 0; 0; 0; 0; 0])].
 
-Theorem HFSTS_no_device_failclosed_refuted :
-  exists l, no_me l /\ read_hfsts 6 l false = HWord 0 /\ read_hfsts 1 l false = HWord 0 /\
-    validate_me_plat 2 l false 0 0 0 = good /\ test_validate_me_plat 2 l false 0 0 0 = pass.
+Theorem HFSTS_no_device_witness :
+  no_me plat_no_me /\
+  read_hfsts 6 plat_no_me false = HErr /\ validate_me_plat 2 plat_no_me false 0 0 0 = bad /\
+  test_validate_me_plat 2 plat_no_me false 0 0 0 = fail /\
+  read_hfsts_legacy 6 plat_no_me false = HWord 0 /\
+  validate_me 2 (decode_hfsts6 0) 0 0 0 = good.
 Proof.
-  exists plat_no_me. split; [|repeat split].
+  split; [|repeat split].
   intros x [<-|[<-|[]]]; reflexivity.
 Qed.
 
